@@ -192,7 +192,7 @@ func (g *pgen) tag() string {
 		return " `b:\"2\" a:\"1\"`"
 	case 3:
 		// values may be empty, all of them
-		return []string{" `xml:\"\"`", " `a:\"\" json:\"\"`", " `json:\",omitempty\" db:\"\"`", " `db:\"id\" db2:\"row\"`", " `json:\"a\" json-api:\"b\" json.x:\"c\"`", ""}[g.r.Intn(6)]
+		return []string{" `xml:\"\"`", " `a:\"\" json:\"\"`", " `json:\",omitempty\" db:\"\"`", " `db:\"id\" db2:\"row\"`", " `json:\"a\" json-api:\"b\" json.x:\"c\"`", " `k:\"first\\u3000last\" nb:\"a\\u00a0b\"`", " `é:\"ü\" ключ:\"значение\"`", ""}[g.r.Intn(8)]
 	}
 	return ""
 }
